@@ -100,7 +100,7 @@ impl World for C44 {
     }
     fn budget(&self, tier: Tier) -> (u64, u64) {
         match tier {
-            Tier::Quick => (250, 45),
+            Tier::Quick => (700, 45),
             Tier::Thorough => (10_000, 900),
         }
     }
